@@ -73,6 +73,7 @@ static void overlap_len(long L)
             unsigned char *base = arena + 1024, *in = base, *out = base + off; int r;
             /* easy: out = in + off */
             memcpy(in, m, len); r = C->enc(out, &ol, in, len, NULL, 0, nonce, &kc); n_eval++; n_nontriv++;
+            if (len == 96 && (off == -47 || off == 33)) VF_SAMPLE_CASE(4, "%s easy form, len=%zu, output starts %d bytes %s the message: result %s... must equal the disjoint-buffer result", C->name, len, off < 0 ? -off : off, off < 0 ? "below" : "above", vf_hex(out, 24));
             if (r != 0 || memcmp(out, dis, len + 16)) { snprintf(k, sizeof k, "%s/easy-overlap/len=%zu/off=%d", C->name, len, off); vf_fail(k, "overlapping result differs from the disjoint result"); }
             /* open_easy: input = tag||c at in, message out at in + off */
             memcpy(in, dis, len + 16); r = C->dec(out, &ol, in, len + 16, NULL, 0, nonce, &kc); n_eval++; n_nontriv++;
